@@ -38,6 +38,16 @@ def gen_cases(tier: str, seed: int) -> list[dict]:
     n = 90 if tier == "quick" else 1200
     cases = [{"hist": _iter.gen_dataset_history(rng, formats=["fb", "fb", "npz", "tfrec"] if k % 2 else None),
               "pseed": rng.randrange(1 << 30), "passes": 8 if tier == "quick" else 14} for k in range(n)]
+    # multi-writer calls with many writers (argument order must survive any naming/sorting of their directories)
+    for k in range(6 if tier == "quick" else 60):
+        fmt = ["fb", "npz", "tfrec"][k % 3]
+        n_writers = rng.choice([10, 11, 12, 13, 15])
+        writers = [[{"split": rng.choice(["train", "train", "test"])} for _ in range(rng.randint(1, 2))] for _ in range(n_writers)]
+        for w in writers:
+            w[0]["split"] = "train"
+        cases.append({"hist": {"fmt": fmt, "comp": "", "eps": 2, "sessions": [
+            {"kind": "multi", "writers": writers, "single_process": True}]},
+            "pseed": rng.randrange(1 << 30), "passes": 4})
     n_real = 6 if tier == "quick" else 60
     for k in range(n_real):
         cases.append({"kind": "real-multi", "fmt": ["fb", "npz", "tfrec"][k % 3], "pseed": rng.randrange(1 << 30),
